@@ -680,6 +680,27 @@ def corrupt_text(text, f):
         toks[i] = toks[i] + rng_char(f["tok2"])
     elif op == "number-exp":
         toks[i] = "1e-05"
+    elif op in ("empty-arglist", "list-then-pair", "pair-then-list", "huge-int", "deep-list") and f["tok"] % 2:
+        # half of the time the extra command stands between two commands of the file (or first, or last) instead of
+        # in the middle of one
+        extra = {"empty-arglist": "Z = Sum()", "list-then-pair": 'ZZ = Copy(InFieldName = [b, "x": 1])',
+                 "pair-then-list": 'ZZ = Copy(InFieldName = ["x": 1, b, c])',
+                 "huge-int": "ZZ = Copy(InFieldName = " + "9" * 5000 + ")",
+                 "deep-list": "ZZ = Sum(InFieldNames = " + "[" * 40 + "a" + "]" * 40 + ")"}[op]
+        depth, ends = 0, []
+        for k in sig:
+            if toks[k] in "([":
+                depth += 1
+            elif toks[k] in ")]":
+                depth -= 1
+                if depth == 0 and toks[k] == ")":
+                    ends.append(k)
+        where = f["tok2"] % (len(ends) + 1)
+        if where == len(ends) or not ends:
+            return "".join(toks) + "\n" + extra + ("\n" if f["tok2"] % 3 else "")
+        if where == 0 and f["tok2"] % 5 == 0:
+            return extra + "\n" + "".join(toks)
+        toks[ends[where]] = toks[ends[where]] + "\n" + extra + "\n"
     elif op == "v2-head":
         toks[i] = toks[i] + "\nREAD(InFieldName = [a, b], InFileName = 5)\n"
     elif op == "colon-in-list":
